@@ -35,6 +35,8 @@ R4 (K1/K2/K5) _execute_pack_operations: packs leave memory only after packer.pac
 R5 (K3) a packer raising RetryWithNewPacks has new_pack.abort() called (when a new pack exists) before propagating.
 R6 (K1) _obsolete_packs / _clear_obsolete_packs only move/delete under obsolete_packs/ or out of the live
    directories — they never delete from packs/ or indices/ (deletes are on the obsolete transport only).
+Added while testing against seeded changes: R7 GCCHKPacker._create_pack_from_packs detects an identical single-pack
+repack after finish_content() and aborts before finish() (which would rewrite the live pack's index files in place).
 Does not decide: atomicity of the transport's put_file/rename, NewPack.finish itself (bzrformats), or behaviour at
 individual crash prefixes; it decides that operations are issued in the only order under which every prefix is safe.
 """
